@@ -424,6 +424,22 @@ def _c20_known():
     return {k["signature"]: k["text"] for k in simprops.known_list() if k["property"] == "C20"}
 
 
+_D15_STMT = re.compile(r"\be\.ctx\s*(,\s*e\.cancel\s*)?=[^=]|\.wg\.Add\(")
+
+
+def _d15_site(pair):
+    """One side of the racing pair is a statement that assigns the election context or adds to the WaitGroup."""
+    for side in pair.split("|"):
+        try:
+            fn, ln = side.rsplit(":", 1)
+            line = open(os.path.join(vlib.REPO, "leader", fn)).read().split("\n")[int(ln) - 1]
+        except Exception:
+            continue
+        if _D15_STMT.search(line):
+            return True
+    return False
+
+
 def check_C20(tier, seed):
     res = Result("C20", tier, seed)
     with vlib.Lock():
@@ -509,8 +525,11 @@ def race_harness(res, tier, seed, known):
             keys.append(key)
             funcs = [f.split(").")[-1] for f in key.split("|")]
             sig = "C20/dynamic/" + key
-            # the racing write sites of the known finding: Start / StopWithContext (ctx, WaitGroup reuse)
-            if ("Start" in funcs or "StopWithContext" in funcs) and "C20/dynamic/with-Start-or-StopWithContext" in known:
+            # the racing write sites of the known finding: the statements of Start / StopWithContext that replace or clear the
+            # election context, and Start's WaitGroup.Add (reuse while a stop still waits). A race whose racing statement in
+            # Start / StopWithContext is any other one is not that finding.
+            if ("Start" in funcs or "StopWithContext" in funcs) and "C20/dynamic/with-Start-or-StopWithContext" in known \
+                    and all(_d15_site(sp) for sp in (r.get("sites") or ["?|?"])):
                 nknown += 1
                 continue
             if sig in known:
